@@ -44,8 +44,10 @@ def run(ctx):
         for a in r.alts:
             if a['kind'] == 'nonce':
                 ptab.append((a['label'], shape(a['j']), shape(a['k'])))
-    # recoverer: direct nonce calls in the verifier core
-    rsites = [(bb, ctx.args(v, bb)) for bb, t in ctx.calls(v) if callee_name(t) in R.nonce_fns(ctx)]
+    # recoverer: nonce calls in the verifier core and in the helpers it delegates to (arguments in the core's vocabulary)
+    nfn = R.nonce_fns(ctx)
+    frames = ctx.frames(v, stop=nfn)
+    rsites = [(bb, a) for (fr, bb, t, a) in ctx.flat_calls(v, lambda n, t: n in nfn, stop=nfn)]
     rtab = []
     for bb, a in rsites:
         lab = a[1][1] if a[1].tag == 'const' else None
@@ -120,7 +122,7 @@ def run(ctx):
     rep.check(d1 is not None and not ctx.shape_adapters(d1), 'R-C09-2', 'R-C09-2/prover-d1', 'd1 component k combines eta_k, d_k and alpha_k (positional zip, no reordering)',
               'd1 is built through %s' % (ctx.shape_adapters(d1) if d1 is not None else None), ctx.where(p))
     # recoverer: one push per k into the mask vector, which is moved into assign
-    asg = [(bb, ctx.args(v, bb)) for bb, t in ctx.calls(v) if callee_name(t).endswith('ExtendedMask::assign')]
+    asg = [(bb, a) for (fr, bb, t, a) in ctx.flat_calls(v, lambda n, t: n.endswith('ExtendedMask::assign'), stop=nfn)]
     if len(asg) != 1:
         rep.anchor_missing('R-C09-2', 'R-C09-2/assign', 'expected one ExtendedMask::assign call in the recoverer, found %d' % len(asg))
     else:
@@ -130,10 +132,11 @@ def run(ctx):
         one_push = len(pushes) == 1 and pushes[0][2].endswith('::push')
         in_order = False
         if one_push:
-            pbb = pushes[0][4][0][1]
-            lps = ctx.enclosing_loops(v, pbb)
-            lp = lps[-1] if lps else None
-            in_order = lp is not None and lp.iter_term is not None and set(ctx.shape_adapters(lp.iter_term)) <= {'take'} and any(y.tag == 'field' and y[1] == 'd1' for y in walk(lp.iter_term)) and ctx.every_iteration(v, lp, pbb)
+            pkey, pbb = pushes[0][4][-1]
+            pfr = next((f for f in frames if f.body.key == pkey and f.site == tuple(pushes[0][4][:-1])), None) or next((f for f in frames if f.body.key == pkey), None)
+            lps = pfr.loops(pbb) if pfr is not None else []
+            lpf, lp, lit = lps[-1] if lps else (None, None, None)
+            in_order = lp is not None and lit is not None and set(ctx.shape_adapters(lit)) <= {'take'} and any(y.tag == 'field' and y[1] == 'd1' for y in walk(lit)) and ctx.every_iteration(lpf.body, lp, pbb)
             dep_k = any(x.tag == 'elem' or x.tag == 'via' for x in walk(pushes[0][3][0]))
             in_order = in_order and dep_k
         rep.check(one_push and in_order, 'R-C09-2', 'R-C09-2/recoverer-position', 'the recoverer pushes mask component k once per d1[k], in order, and hands the vector to ExtendedMask::assign',
@@ -152,18 +155,19 @@ def run(ctx):
         for e in ctx.eng.bx(v).events_on(('L', l)):
             if not e['decl'].endswith('::push'):
                 continue
-            val = ctx.eng.operand(v, e['bb'], TERM_IDX, e['args'][0])
-            is_some = val.tag == 'adt' and val[1].endswith('Option::Some')
-            pcs = ctx.path_conditions(v, e['bb'])
-            conds = [(canon(c), arms) for (sw, c, arms, tg) in pcs]
-            seed_some = any(c == 'discr(each(p2).seed_nonce)' and arms == ('1',) for c, arms in conds)
-            act_dep = [(c, arms) for c, arms in conds if 'p%d' % act in c]
-            not_verify_only = any(c == 'discr(p%d)' % act and '0' not in arms for c, arms in act_dep)
-            key = 'R-C09-3/push@%s' % ('some' if is_some else 'none-%d' % e['bb'])
-            if is_some:
-                rep.check(seed_some and not_verify_only, 'R-C09-3', key, 'Some(mask) is pushed only when the statement has a seed and the action is not VerifyOnly',
-                          'Some(mask) push conditions: %s' % conds[:4], ctx.where(v, e['bb']))
-                uses_seed = any(x.tag == 'field' and x[1] == 'seed_nonce' for x in walk(val))
-                rep.check(uses_seed, 'R-C09-3', key + '/from-seed', 'the pushed mask is computed from the seed-derived nonces', 'the pushed mask does not depend on the seed', ctx.where(v, e['bb']))
-            else:
-                rep.ok('R-C09-3', key, 'None pushed on a path without seed or in VerifyOnly mode (%s)' % [c for c, _ in conds[:2]], ctx.where(v, e['bb']))
+            # a pushed `match .. { Some(seed) => Some(mask), None => None }` value is one push per alternative, under that alternative's conditions
+            for val, dbb in ctx.alternatives(v, e['bb'], TERM_IDX, e['args'][0]):
+                is_some = val.tag == 'adt' and val[1].endswith('Option::Some')
+                pcs = ctx.path_conditions(v, e['bb']) + (ctx.path_conditions(v, dbb) if dbb != e['bb'] else [])
+                conds = [(canon(c), arms) for (sw, c, arms, tg) in pcs]
+                seed_some = any(c == 'discr(each(p2).seed_nonce)' and arms == ('1',) for c, arms in conds)
+                act_dep = [(c, arms) for c, arms in conds if 'p%d' % act in c]
+                not_verify_only = any(c == 'discr(p%d)' % act and '0' not in arms for c, arms in act_dep)
+                key = 'R-C09-3/push@%s' % ('some' if is_some else 'none-%d' % dbb)
+                if is_some:
+                    rep.check(seed_some and not_verify_only, 'R-C09-3', key, 'Some(mask) is pushed only when the statement has a seed and the action is not VerifyOnly',
+                              'Some(mask) push conditions: %s' % conds[:4], ctx.where(v, e['bb']))
+                    uses_seed = any(x.tag == 'field' and x[1] == 'seed_nonce' for x in walk(val))
+                    rep.check(uses_seed, 'R-C09-3', key + '/from-seed', 'the pushed mask is computed from the seed-derived nonces', 'the pushed mask does not depend on the seed', ctx.where(v, e['bb']))
+                else:
+                    rep.ok('R-C09-3', key, 'None pushed on a path without seed or in VerifyOnly mode (%s)' % [c for c, _ in conds[:2]], ctx.where(v, e['bb']))
